@@ -401,6 +401,36 @@ def run(ctx):
         if which == 'kronop':
             ctx.count('dispatch=' + ('dense' if all(k == 'd' for k in ks) or not sq else 'linops'))
 
+    # ---------------------------------------------------------------- zero-size factors (direct oracle)
+    # apply_tprod_spec / kron_dot are statements about all shapes, including factors with an empty dimension (a 3x0
+    # restriction, an empty patch): the dense Kronecker matrix then has an empty dimension and the product is the zero
+    # vector / the empty vector.  The line protocol has no token for an empty matrix, so these are decided directly.
+    nzs = 0
+    for _ in range(250 if quick else 2500):
+        n = int(rng.integers(1, 4))
+        shapes = [(int(rng.integers(0, 3)), int(rng.integers(0, 3))) for _k in range(n)]
+        if all(min(s_) > 0 for s_ in shapes):
+            continue
+        zmats = [rint(rng, s_) for s_ in shapes]
+        zks = [str(rng.choice(KINDS)) for _k in range(n)]
+        Kz = kron_all(zmats)
+        xz = rint(rng, (Kz.shape[1],))
+        Az = xz.reshape([s_[1] for s_ in shapes])
+        want = Kz @ xz
+        nzs += 1
+        for nm, fz in (('apply_tprod', lambda: tensor.apply_tprod([mk(k, a) for k, a in zip(zks, zmats)], Az)),
+                       ('KroneckerOperator.dot', lambda: operators.KroneckerOperator(*[mk(k, a) for k, a in zip(zks, zmats)]).dot(xz))):
+            rep = {'routine': nm, 'kinds': zks, 'shapes': [list(s_) for s_ in shapes], 'mats': [a.tolist() for a in zmats], 'x': xz.tolist()}
+            try:
+                yz = np.asarray(fz()).reshape(-1)
+                if yz.shape != want.shape or not np.array_equal(yz, want):
+                    ctx.violation('zero-size:' + nm, '%s with a zero-size factor (shapes %s, kinds %s) returns shape %s, the dense Kronecker product gives %s'
+                                  % (nm, shapes, zks, yz.shape, want.tolist()), rep, True)
+            except Exception as ex:
+                ctx.violation('zero-size:' + nm, '%s with a zero-size factor (shapes %s, kinds %s) raised %s where the dense Kronecker product gives %s'
+                              % (nm, shapes, zks, type(ex).__name__, want.tolist()), dict(rep, error=str(ex)[:200]), True)
+    ctx.count('zero-size factor cases', nzs)
+
     # ---------------------------------------------------------------- block operators
     nbl = 900 if quick else 8000
     for _ in range(nbl):
